@@ -41,7 +41,8 @@ MANIFEST = dict(
               "printer-model correspondence + metamorphic echo oracle on the real interpreter",
 )
 
-THEOREMS = ["C15_string_escape", "C15_roundtrip_partial", "C15_roundtrip_exact", "C15_reassociation_refuted"]
+THEOREMS = ["C15_string_escape", "C15_roundtrip_partial", "C15_roundtrip_exact", "C15_fixed_point_partial",
+            "C15_reassociation_refuted"]
 ALLOWED_AXIOMS = []
 EXTRA_VO = ["theories/Syntax/ExecTyped.vo"]
 MODEL_IMPORTS = ["Syntax.Ast", "Syntax.TypedPrinter", "Syntax.ExecTyped"]
